@@ -83,3 +83,13 @@ Theorem C09_tracker_from_source : forall st o,
   Proofs.TrackerIRTie.run_generated st o = Some (Model.Tracker.tstep st o).
 Proof. exact Proofs.TrackerIRTie.tracker_from_source. Qed.
 Print Assumptions C09_tracker_from_source.
+
+(* ---------- which logins the correlator accepts, read from the source ----------
+   RemoteLogin starts with rul.Validate().  Gen/LoginValidate.v is REGENERATED on every run from
+   internal/common/login.go; the model's [validate] (Source not nil and CredUserID not empty — l_valid — and PID > 0)
+   IS the interpretation of the generated checks, for every login. *)
+From AM Require Model.ValidateIR Gen.LoginValidate Proofs.ValidateTie.
+Theorem C09_validate_from_source : forall id at_ l,
+  Model.ValidateIR.run_validate Gen.LoginValidate.gen_validate l = Model.Tracker.validate (Proofs.ValidateTie.abs_login id at_ l).
+Proof. exact Proofs.ValidateTie.validate_from_source. Qed.
+Print Assumptions C09_validate_from_source.
